@@ -555,6 +555,30 @@ def run(ctx):
         for v in r["viols"].values():
             ctx.violations.append({"sig": v["sig"], "case": v["case"], "what": v["what"] + " (x%d)" % v["count"]})
     _init()
+    # deep nesting (beyond any fixed-size stack / cache): one chain of regions of depth 33 / 40 (thorough 70), all
+    # conditions true or exactly one false at the outside / middle / inside, an op at every level on the way in and out
+    ndeep = 0
+    for depth in (33, 40) + ((70,) if ctx.thorough else ()):
+        for falsepos in (None, 0, depth // 2, depth - 1):
+            tree = (("op",),)
+            for lvl in range(depth - 1, -1, -1):
+                c = ("b0" if lvl % 2 == 0 else "s0") if lvl == falsepos else ("b1" if lvl % 2 == 0 else "s1")
+                tree = (("op",), ("region", c, tree), ("op",))
+            for real in ("guarded", "if", "ite-then", "guarded-shared"):
+                if real == "ite-then":
+                    t2 = (("op",),)
+                    for lvl in range(depth - 1, -1, -1):
+                        t2 = (("op",), ("region", "b0" if lvl == falsepos else "b1", t2), ("op",))
+                else:
+                    t2 = tree
+                vs, ev, sts, skipped = run_tree(t2, real, p)
+                ndeep += 1
+                agg["executions"] += 1
+                agg["transitions"] += ev
+                for sig, text in vs:
+                    ctx.violation(dict(sig, real=real, deep=True), {"deep": [depth, falsepos, real], "p": p},
+                                  "chain of %d nested regions (false condition at level %s) realised with %s: %s" % (depth, falsepos, real, text))
+    agg["deep_histories"] = ndeep
     nmis = 0
     for kind in MISUSE:
         for outer in OUTERS:
@@ -574,7 +598,7 @@ def run(ctx):
     ctx.cov["exhaustive"] = True
     ctx.cov["rule"] = ("history = well-nested tree of regions (cost 2 each; 8 kinds of condition incl. refused ones), "
                        "API ops, user exceptions, value errors and try/except blocks (cost 1 each), total cost <= bound, "
-                       "nesting <= 3; every history x 8 realisations (guarded, lazy then/else branch, _if, _else, _elif, _while, _range), plus three realisations in which equal conditions are ONE shared object; after every event the real (guard, ignore_errors, "
+                       "nesting <= 3 (plus single chains of 33 / 40 / 70 nested regions); every history x 8 realisations (guarded, lazy then/else branch, _if, _else, _elif, _while, _range), plus three realisations in which equal conditions are ONE shared object; after every event the real (guard, ignore_errors, "
                        "LinComb.ONE, constants) is compared with the reference stack model (product of the enclosing "
                        "secret conditions); states = distinct (condition stack, guard-present, ignore flag, ONE-is-safe) "
                        "configurations reached; transitions = events executed; plus 6 kinds of error raised by the block API's own "
@@ -586,6 +610,17 @@ def run(ctx):
 
 def replay(case):
     H.bind(case["p"])
+    if "deep" in case:
+        depth, falsepos, real = case["deep"]
+        tree = (("op",),)
+        for lvl in range(depth - 1, -1, -1):
+            if real == "ite-then":
+                c = "b0" if lvl == falsepos else "b1"
+            else:
+                c = ("b0" if lvl % 2 == 0 else "s0") if lvl == falsepos else ("b1" if lvl % 2 == 0 else "s1")
+            tree = (("op",), ("region", c, tree), ("op",))
+        vs, ev, sts, skipped = run_tree(tree, real, case["p"])
+        return {"depth": depth, "false_at": falsepos, "real": real, "events": ev, "violations": [{"sig": s_, "what": w} for s_, w in vs]}
     if "misuse" in case:
         kind, outer, cval = case["misuse"]
         vs = run_misuse(kind, outer, cval, case["p"])
